@@ -62,7 +62,7 @@ class Allow:
         if d in ("actor_ref::ActorRef::<T>::identity", "actor_ref::ActorWeak::<T>::identity", "Identity::name", "Identity::new"):
             self.erased_local.add(d)
             return "pure getter"
-        if d in anchors.wait_map_fns(self.f):
+        if d in anchors.bookkeeping_fns(self.f):
             self.erased_local.add(d)
             return None if self.strict_local else "wait-for bookkeeping"
         if nm in ("try_with", "scope") and "LocalKey" in d:
